@@ -264,10 +264,15 @@ class CounterToken(Token, FileSystemEventHandler):
             if _verif.ACTIVE:
                 _verif.emit("tok.init", available=self.available, total=self.total)
 
+        if _verif.ACTIVE:
+            _verif.pause("init.counted")
+
         # Watched path
         self.watchedpath = str(path.absolute())
         self.watcher = ipcom().fswatch(self, self.path, recursive=True)
         logger.info("Watching %s", self.watchedpath)
+        if _verif.ACTIVE:
+            _verif.emit("tok.watching", available=self.available)
 
     def _update(self):
         """Update the state by reading all the information from disk
